@@ -26,9 +26,11 @@ import (
 // case
 
 type recSpec struct {
-	T     string // A AAAA TXT TXTBIG FILL MX NS CNAME SOA
+	T     string // A AAAA TXT TXTBIG FILL MX NS CNAME SOA | GEN (any type of the layout table: Ty + RD)
 	Owner string // relative owner ("" = apex)
 	V     uint32 // content seed; serial for SOA
+	Ty    uint16 `json:",omitempty"` // GEN: type code
+	RD    []byte `json:",omitempty"` // GEN: RDATA as on the wire, names uncompressed
 }
 
 type diffSpec struct {
@@ -85,6 +87,14 @@ const knownWrap = "ixfr-serial-wrap"
 // known findings of round 7 (see KNOWN_FINDINGS.txt)
 const knownOtherKey = "envelope-signed-with-another-configured-key"
 const knownReuse = "reused-transfer-signs-timers-only"
+
+// known finding of round 8: an error RCODE in the second or a later envelope of an AXFR answer goes unnoticed
+const knownRcodeLater = "axfr-rcode-in-later-envelope"
+
+// rcodeLaterAxfr: the fault is an error RCODE in an envelope after the first of an answer to an AXFR question.
+func (f faultSpec) rcodeLaterAxfr(mode string, nenv int) bool {
+	return f.Kind == "rcode" && mode == "axfr" && nenv > 0 && ((f.Env%nenv)+nenv)%nenv > 0
+}
 
 // otherKeyMust: the envelope is signed with a key other than the one the transfer was requested with
 // ("wrongly keyed"), although the receiver knows that key too. Val%3 == 2 keeps key name and secret
@@ -155,6 +165,12 @@ func (r recSpec) rr(zone string) dns.RR {
 	case "CNAME":
 		h.Rrtype = dns.TypeCNAME
 		return &dns.CNAME{Hdr: h, Target: sub(fmt.Sprintf("t%d", v%100))}
+	case "GEN":
+		rr, err := genRR(owner, r.Ty, r.RD)
+		if err != nil {
+			panic(fmt.Sprintf("harness: generated record of type %d: %v", r.Ty, err))
+		}
+		return rr
 	}
 	panic("harness: bad record kind " + r.T)
 }
@@ -283,11 +299,17 @@ func (c xferCase) valid() string {
 		if r.T == "SOA" {
 			return "zone body must not contain an SOA"
 		}
+		if r.T == "GEN" && !stableOnWire(r.Ty, r.RD) {
+			return "generated record outside the domain (does not survive a plain pack/unpack)"
+		}
 	}
 	for _, d := range c.Diffs {
 		for _, r := range append(append([]recSpec{}, d.Del...), d.Add...) {
 			if r.T == "SOA" {
 				return "difference body must not contain an SOA"
+			}
+			if r.T == "GEN" && !stableOnWire(r.Ty, r.RD) {
+				return "generated record outside the domain (does not survive a plain pack/unpack)"
 			}
 		}
 	}
@@ -650,14 +672,17 @@ func buildPlan(c xferCase, reqMAC []byte, now uint64) plan {
 				binary.BigEndian.PutUint16(mb, binary.BigEndian.Uint16(mb)^x)
 				p.firstBad, p.strong, p.prefix, p.kind = i, true, true, "id"
 			case "rcode":
+				// "reports an error instead when ... the RCODE is non-zero": in ANY envelope, for both kinds of
+				// question (round 8; a later AXFR envelope used to be left out - see knownRcodeLater)
 				rc := f.Val%15 + 1
+				if f.K%2 == 1 {
+					// an error answer the way servers send it: the RCODE and no records
+					recs = nil
+					mb = packEnvelope(c, nil)
+				}
 				mb[3] = mb[3]&0xf0 | byte(rc)
 				p.rcode = rc
-				if c.Mode == "axfr" && i > 0 {
-					p.prefix = true // deliberately not asserted: RCODE of a later AXFR envelope
-				} else {
-					p.firstBad, p.strong, p.prefix, p.kind = i, true, true, "rcode"
-				}
+				p.firstBad, p.strong, p.prefix, p.kind = i, true, true, "rcode"
 			}
 		}
 		fr := frame{b: mb, recs: strs(c.Zone, recs)}
@@ -909,8 +934,9 @@ func buildPlan(c xferCase, reqMAC []byte, now uint64) plan {
 // running one history
 
 type envOut struct {
-	RR  []string
-	Err error
+	RR    []string // the records of the envelope as they read when the collection ENDED (channel closed / watchdog): what the caller holds
+	Early []string // the same records as they read at the moment the envelope came out of the channel
+	Err   error
 }
 
 type result struct {
@@ -935,8 +961,19 @@ func collectSlow(ch chan *dns.Envelope, cli closeObserver, limit, pause time.Dur
 
 // collectUntil: stuck (optional) is polled every 20 ms; two consecutive positive answers end the
 // collection early with result.stuck set (the transfer could only end in the receiver's read timeout).
-func collectUntil(ch chan *dns.Envelope, cli closeObserver, limit, pause time.Duration, stuck func() bool) result {
-	var r result
+func collectUntil(ch chan *dns.Envelope, cli closeObserver, limit, pause time.Duration, stuck func() bool) (r result) {
+	// The delivered records are HELD until the transfer has ended and only then compared with what was
+	// transmitted: a record must not change after it was handed to the caller (e.g. because it shares
+	// memory with a receive buffer that is used again for the following envelopes).
+	var held [][]dns.RR
+	defer func() {
+		for i := range r.envs {
+			r.envs[i].RR = nil
+			for _, rr := range held[i] {
+				r.envs[i].RR = append(r.envs[i].RR, rr.String())
+			}
+		}
+	}()
 	var tick <-chan time.Time
 	if stuck != nil {
 		tk := time.NewTicker(20 * time.Millisecond)
@@ -957,8 +994,9 @@ func collectUntil(ch chan *dns.Envelope, cli closeObserver, limit, pause time.Du
 			}
 			eo := envOut{Err: e.Error}
 			for _, rr := range e.RR {
-				eo.RR = append(eo.RR, rr.String())
+				eo.Early = append(eo.Early, rr.String())
 			}
+			held = append(held, e.RR)
 			r.envs = append(r.envs, eo)
 			if pause > 0 {
 				time.Sleep(pause)
@@ -1377,6 +1415,25 @@ func checkTermination(r result) error {
 	if !r.connClosed {
 		return pbt.Errf("the channel was closed but the receiver had not closed the connection: %s", describe(r))
 	}
+	return checkStable(r)
+}
+
+// checkStable: what was delivered stays what was delivered. Every record is read twice - when its
+// envelope comes out of the channel and when the transfer has ended - and must read the same.
+func checkStable(r result) error {
+	for i, e := range r.envs {
+		if !eqStrs(e.Early, e.RR) {
+			k := firstDiff(e.Early, e.RR)
+			was, is := "(none)", "(none)"
+			if k < len(e.Early) {
+				was = e.Early[k]
+			}
+			if k < len(e.RR) {
+				is = e.RR[k]
+			}
+			return pbt.Errf("record %d of envelope %d (of %d) changed AFTER it had been delivered through the channel: on arrival it read\n  %s\nat the end of the transfer the caller holds\n  %s\n(the delivered record shares memory with something the receiver went on writing to, e.g. a receive buffer used for the following envelopes)", k, i, len(r.envs), was, is)
+		}
+	}
 	return nil
 }
 
@@ -1492,6 +1549,7 @@ func checkXfer(c xferCase) error {
 	if c.wrapClass() {
 		classes = append(classes, "serial-wrap")
 	}
+	classes = append(classes, c.typeClasses()...)
 	if c.OtherKey != nil {
 		classes = append(classes, "receiver-holds-two-keys")
 	}
@@ -1525,6 +1583,21 @@ func checkXfer(c xferCase) error {
 	nontrivial := nenv >= 2 || c.Mode == "ixfr" || c.Fault.Kind != ""
 	if c.Fault.Kind != "" {
 		classes = append(classes, fmt.Sprintf("fault=%s/tsig=%v", c.Fault.Kind, c.Tsig != nil))
+	}
+	if k := c.Fault.Kind; (k == "id" || k == "rcode") && nenv > 0 {
+		q, pos := "ixfr", "first"
+		if c.Mode == "axfr" {
+			q = "axfr"
+		}
+		if j := ((c.Fault.Env % nenv) + nenv) % nenv; j == nenv-1 && j > 0 {
+			pos = "last"
+		} else if j > 0 {
+			pos = "middle"
+		}
+		classes = append(classes, fmt.Sprintf("%s-in-envelope=%s/question=%s", k, pos, q))
+		if k == "rcode" {
+			classes = append(classes, fmt.Sprintf("rcode-answer-emptied=%v", c.Fault.K%2 == 1))
+		}
 	}
 
 	if c.BadRequest != "" {
@@ -1742,7 +1815,7 @@ var zones = []string{"example.", "z.", "Sub.Example.ORG.", "."}
 var algs = []string{dns.HmacSHA1, dns.HmacSHA224, dns.HmacSHA256, dns.HmacSHA384, dns.HmacSHA512}
 var keyNames = []string{"xfr-key.", "k.", "key.example.org."}
 
-func genRecs(t *rapid.T, max int, label string) []recSpec {
+func genRecs(t *rapid.T, max int, label string, typed bool) []recSpec {
 	n := 0
 	if max > 0 {
 		if rapid.IntRange(0, 2).Draw(t, label+"small") > 0 {
@@ -1757,6 +1830,14 @@ func genRecs(t *rapid.T, max int, label string) []recSpec {
 	}
 	out := make([]recSpec, n)
 	for i := range out {
+		if typed && rapid.Bool().Draw(t, "typed-rec") {
+			// a record of any type of the layout table; a draw outside the domain (not stable under a plain
+			// pack/unpack - C01's matter) is replaced by a plain kind
+			if r, ok := genTyped(t); ok {
+				out[i] = r
+				continue
+			}
+		}
 		out[i] = recSpec{
 			T:     rapid.SampledFrom(recKinds).Draw(t, "kind"),
 			Owner: rapid.SampledFrom(owners).Draw(t, "owner"),
@@ -1851,6 +1932,7 @@ func genCase(t *rapid.T) xferCase {
 		c.QName = genQName(t, c.Zone)
 	}
 	c.QID = uint16(rapid.IntRange(0, 65535).Draw(t, "qid"))
+	typed := rapid.Bool().Draw(t, "typed-zone") // the bodies hold records of every type of the layout table
 	base := uint32(rapid.IntRange(0, 4_000_000_000).Draw(t, "serial"))
 	switch rapid.IntRange(0, 9).Draw(t, "serial-region") {
 	case 0:
@@ -1869,11 +1951,11 @@ func genCase(t *rapid.T) xferCase {
 	switch c.Mode {
 	case "axfr":
 		c.Serial = base
-		c.Recs = genRecs(t, 40, "z")
+		c.Recs = genRecs(t, 40, "z", typed)
 	case "axfrstyle":
 		c.QSerial = base
 		c.Serial = base + step()
-		c.Recs = genRecs(t, 40, "z")
+		c.Recs = genRecs(t, 40, "z", typed)
 	case "uptodate":
 		c.Serial = base
 		c.QSerial = base
@@ -1893,7 +1975,7 @@ func genCase(t *rapid.T) xferCase {
 			if !serialLess(c.QSerial, to) { // the chain must end past the requester's serial
 				to = c.QSerial + step()
 			}
-			c.Diffs = append(c.Diffs, diffSpec{From: cur, To: to, Del: genRecs(t, 6, "del"), Add: genRecs(t, 6, "add")})
+			c.Diffs = append(c.Diffs, diffSpec{From: cur, To: to, Del: genRecs(t, 6, "del", typed), Add: genRecs(t, 6, "add", typed)})
 			cur = to
 		}
 		c.Serial = cur
@@ -1955,9 +2037,13 @@ func genCase(t *rapid.T) xferCase {
 		}
 		switch f.Kind {
 		case "rcode":
-			// a bad RCODE in a later AXFR envelope is deliberately not asserted (DESIGN §3 C15);
-			// for IXFR the statement's "the RCODE is non-zero" is asserted for any envelope
-			if c.Mode == "axfr" || rapid.Bool().Draw(t, "rcode-first") {
+			// the statement's "the RCODE is non-zero" holds for any envelope and both kinds of question
+			if rapid.IntRange(0, 2).Draw(t, "rcode-first") == 0 {
+				f.Env = 0
+			}
+			if (faultSpec{Kind: "rcode", Env: f.Env}).rcodeLaterAxfr(c.Mode, nenv) && pbt.Known(knownRcodeLater) {
+				// known finding: inAxfr looks at the RCODE of the first envelope only
+				pbt.Excluded(knownRcodeLater)
 				f.Env = 0
 			}
 		case "nosoa":
